@@ -17,6 +17,13 @@
 //!   row; rustc's accept/reject verdict must equal `Model.AutoTrait.holds` as answered by the
 //!   Lean driver (`autotrait …`). Disagreement = the model's base facts are wrong or the crate
 //!   changed.
+//!   The same crate also holds the PER-PARAMETER probes: for every public type with type
+//!   parameters (and for every `unsafe impl Send/Sync` row of Gen/Surface), each parameter that
+//!   occurs in a field type is instantiated with a non-`Send` (`Rc<()>`) resp. non-`Sync`
+//!   (`Cell<u8>`) witness — `need_send::<ThinVec<u8, Rc<()>>>()` — and rustc MUST reject it,
+//!   unless the parameter is on the reviewed phantom list (driver: `phantom_params`); the
+//!   positive twin of an `unsafe impl` row (all parameters well behaved) must compile. This is
+//!   the probe that turns a new / under-bounded `unsafe impl` into a concrete accepted program.
 //! * crate `unsafety` (C17): for every row of the public-function table with `nameUnchecked`,
 //!   `hasSafetyDoc` or `forwardsToUnsafe` (a pure forwarder of its parameters to a callee in
 //!   unsafe context) — taken from the same translator that generates `Gen/PubFns.lean`, and
@@ -58,7 +65,7 @@ use std::path::{Path, PathBuf};
 use std::process::Command;
 
 use hipverif_harness::extract::autotraits::{CrateModel, FEATURES_ON};
-use hipverif_harness::extract::{pubfns, Repo};
+use hipverif_harness::extract::{pubfns, surface, Repo};
 use hipverif_harness::util::{parse_cli, LeanDriver};
 use serde_json::{json, Value};
 
@@ -468,6 +475,65 @@ fn main() {
         }
     }
 
+    // ------------------------------------------------------------------ C05 per-parameter probes
+    struct ParamRow {
+        line: usize,
+        code: String,
+        probe: surface::ParamProbe,
+    }
+    let mut param_rows: Vec<ParamRow> = vec![];
+    let mut param_unspellable: Vec<Value> = vec![];
+    let mut c05_early: Vec<Value> = vec![];
+    if run_c05 {
+        let repo = Repo::load(&repo_dir).unwrap_or_else(|e| internal(&e));
+        let cm = CrateModel::build(&repo).unwrap_or_else(|e| internal(&format!("crate model: {e}")));
+        let a = ask("phantom_params");
+        let phantom: Vec<(String, usize)> = if a == "none" {
+            vec![]
+        } else {
+            a.split(" ; ")
+                .filter_map(|e| e.rsplit_once(' ').and_then(|(p, i)| i.parse().ok().map(|i| (p.to_string(), i))))
+                .collect()
+        };
+        let pp = surface::param_probes(&cm, &phantom).unwrap_or_else(|e| internal(&format!("param probes: {e}")));
+        // the compiled Lean table must list the same unsafe impls as the source
+        let rust_impls: BTreeSet<String> = surface::collect(&cm)
+            .unwrap_or_else(|e| internal(&format!("surface: {e}")))
+            .unsafe_impls
+            .iter()
+            .map(|u| format!("{} {} @ {}", u.tr, u.ty, u.loc))
+            .collect();
+        let a = ask("unsafe_impls");
+        let lean_impls: BTreeSet<String> = if a == "none" { BTreeSet::new() } else { a.split(" ; ").map(str::to_string).collect() };
+        if rust_impls != lean_impls {
+            c05_early.push(json!({
+                "property": "C05",
+                "kind": "impl-vs-model",
+                "input": ["unsafe_impls"],
+                "expected": format!("the unsafe impls of the source; only in the source: {:?}", rust_impls.difference(&lean_impls).collect::<Vec<_>>()),
+                "observed": format!("only in the compiled Gen/Surface: {:?} (stale — regenerate)", lean_impls.difference(&rust_impls).collect::<Vec<_>>()),
+                "profile": "check"
+            }));
+        }
+        for (what, why) in pp.unspellable {
+            param_unspellable.push(json!({"what": what, "reason": why}));
+        }
+        let mut pline = auto_src.lines().count();
+        let mut seen_code: BTreeSet<String> = BTreeSet::new();
+        for probe in pp.probes {
+            let n = param_rows.len();
+            let body = format!("need_{}::<{}>()", probe.tr, probe.ty);
+            if !seen_code.insert(format!("{body}{}", probe.must_reject)) {
+                continue;
+            }
+            let code = format!("fn q_{n}() {{ {body} }}");
+            pline += 1;
+            auto_src.push_str(&code);
+            auto_src.push('\n');
+            param_rows.push(ParamRow { line: pline, code, probe });
+        }
+    }
+
     // ------------------------------------------------------------------ C17 unsafe rows
     let collected = if run_c17 || run_c06 {
         let repo = Repo::load(&repo_dir).unwrap_or_else(|e| internal(&e));
@@ -492,7 +558,7 @@ fn main() {
         }
     };
     let rust_flagged: BTreeSet<String> = flagged.iter().map(|r| format!("{} @ {}", r.name, r.loc)).collect();
-    let mut disagreements: Vec<Value> = vec![];
+    let mut disagreements: Vec<Value> = c05_early;
     if lean_flagged != rust_flagged {
         let only_lean: Vec<_> = lean_flagged.difference(&rust_flagged).cloned().collect();
         let only_rust: Vec<_> = rust_flagged.difference(&lean_flagged).cloned().collect();
@@ -806,7 +872,7 @@ fn main() {
 
     // ------------------------------------------------------------------ verdicts: C05
     let ad = diags.get("probe_autotrait").unwrap_or(&empty);
-    let known_lines: BTreeSet<usize> = auto_rows.iter().map(|r| r.line).collect();
+    let known_lines: BTreeSet<usize> = auto_rows.iter().map(|r| r.line).chain(param_rows.iter().map(|r| r.line)).collect();
     for (ln, d) in ad {
         if !known_lines.contains(ln) {
             internal(&format!("autotrait crate: error outside the probes (line {ln}): {:?}", d.messages));
@@ -865,6 +931,49 @@ fn main() {
                 "observed": format!("rustc {}", if rejected { format!("rejects {}", reject_why.get(&r.line).cloned().unwrap_or_default()) } else { "accepts".to_string() }),
                 "profile": "check"
             }));
+        }
+    }
+
+    // ------------------------------------------------------------------ verdicts: C05 per-parameter probes
+    let mut n_param_rejected = 0;
+    let mut n_param_accepted = 0;
+    for r in &param_rows {
+        let rejected = match ad.get(&r.line) {
+            None => false,
+            Some(d) => {
+                if d.codes.iter().any(|c| c != "E0277") {
+                    internal(&format!("parameter probe `{}` failed with {:?} {:?}", r.code, d.codes, d.messages));
+                }
+                true
+            }
+        };
+        if rejected {
+            n_param_rejected += 1
+        } else {
+            n_param_accepted += 1
+        }
+        if rejected != r.probe.must_reject {
+            let what = match &r.probe.param {
+                Some(p) => format!(
+                    "{}: parameter `{p}` occurs in a field type, so with a non-{} `{p}` the type must not be {} ({}; {})",
+                    r.probe.def,
+                    if r.probe.tr == "send" { "Send" } else { "Sync" },
+                    if r.probe.tr == "send" { "Send" } else { "Sync" },
+                    r.probe.origin,
+                    r.probe.loc
+                ),
+                None => format!("{}: with well-behaved parameters the {} must hold ({})", r.probe.def, r.probe.origin, r.probe.loc),
+            };
+            for prop in ["C05", "C17"] {
+                disagreements.push(json!({
+                    "property": prop,
+                    "kind": "impl-vs-oracle",
+                    "input": [r.code.clone()],
+                    "expected": format!("{} — {what}", if r.probe.must_reject { "rejected (E0277)" } else { "accepted" }),
+                    "observed": format!("rustc {} this program", if rejected { "rejects" } else { "ACCEPTS" }),
+                    "profile": "check"
+                }));
+            }
         }
     }
 
@@ -1200,7 +1309,7 @@ fn main() {
         // is already exhausted by the quick tier
     }
 
-    let programs = auto_rows.len() + 2 * unsafe_rows.len() + escape.len() + self_rows.len()
+    let programs = auto_rows.len() + param_rows.len() + 2 * unsafe_rows.len() + escape.len() + self_rows.len()
         + bounds_corpus.len() + 2 * copy_rows.len() + macros_corpus.len() + constgen_corpus.len()
         + doors_corpus.len() + door_rows.len();
     let mut distribution = serde_json::Map::new();
@@ -1211,6 +1320,10 @@ fn main() {
         distribution.insert("c05_rows".into(), json!(auto_rows.len()));
         distribution.insert("c05_rustc_accepts".into(), json!(n_accept));
         distribution.insert("c05_rustc_rejects".into(), json!(n_reject));
+        distribution.insert("c05_param_probes".into(), json!(param_rows.len()));
+        distribution.insert("c05_param_probes_rejected".into(), json!(n_param_rejected));
+        distribution.insert("c05_param_probes_accepted".into(), json!(n_param_accepted));
+        distribution.insert("c05_param_unspellable".into(), json!(param_unspellable));
         rules.push("C05: rustc accept/reject of `need_send/need_sync::<T<B>>()` == Lean `holds` == (backend != Rc), for every (public type x backend x trait x lifetime variant) row; plus the row predicates of the C05 theorems (`rows_c05`)");
         // every pubTypes row is compared twice (model, property); + rows_c05
         checked += auto_rows.iter().filter(|r| r.backend != "-").count() + 1;
